@@ -393,7 +393,13 @@ theorem indexBytes_mod4 (recs : List (Nat × Nat)) : (indexBytes recs).length % 
 /-- **Index round trip** (after the indicator byte) -/
 theorem parseIndex_ok (recs : List (Nat × Nat)) (hn : recs.length < 2 ^ 63) (h : ∀ x ∈ recs, RecOk x)
     (r : List Nat) :
-    parseIndex ((indexBytes recs).tail ++ r) = .ok (recs, r) := by
+    parseIndex ((indexBytes recs).tail ++ r) = .ok (recs, (indexBytes recs).length, r) := by
+  have hsize : (indexBytes recs).length = 1 + (mb recs.length ++ recBytes recs).length +
+      (4 - (1 + (mb recs.length ++ recBytes recs).length) % 4) % 4 + 4 := by
+    rw [indexBytes_eq]
+    simp only [List.length_cons, List.length_append, List.length_replicate, le_length]
+    omega
+  rw [hsize]
   obtain ⟨n1, _, n3, n4⟩ := mb_spec recs.length hn
   obtain ⟨rl, rb⟩ := recBytes_spec recs h
   rw [indexBytes_eq]
